@@ -72,6 +72,11 @@ struct Sess
   std::atomic<uint64_t> rxAtClose{0};
   std::atomic<bool> dataAfterClose{false};
   std::string closeMsg; std::mutex closeMx;
+  // callback sender: sends issued from inside onData on iora's I/O thread (own sender id = index `threads`)
+  std::atomic<bool> cbEnabled{false};
+  std::atomic<uint32_t> cbWaiting{0}, cbReleased{0}; // latch: a worker releases it right AFTER one of its sends returned
+  vf::Rng cbRng{1}; std::vector<uint8_t> cbBuf;       // I/O thread only
+  uint32_t cbGen = 0, cbCount = 0, cbLatchLeft = 60; uint64_t cbBytes = 0, cbByteBudget = 0, cbLatched = 0, cbLatchTimeouts = 0;
   Peer peer;
   uint16_t peerLocalPort = 0, peerRemotePort = 0; // the peer socket's own / remote port (= iora's remote / local port)
   std::vector<std::thread> senderThreads;
@@ -86,6 +91,7 @@ struct Cell
   uint32_t permille = 300, iocap = 0, dist = 0, hsSends = 2;
   int sndbuf = 4096, rcvbuf = 4096, peerRcvbuf = 8192, iochunk = 65536, pauses = 100;
   size_t mwq = 1024;
+  bool cbsend = false; // a callback sender (onData, I/O thread) sends on the same session concurrently with the threads
   uint64_t window = 1u << 20; // sender throttle: accepted-but-not-yet-received bytes
   std::string fin = "half"; // half | app | stop
   std::string fault = "none"; // none | peer-rst | peer-fin | app-close | overflow
@@ -98,7 +104,7 @@ struct Cell
     o << "{\"tls\":" << tls << ",\"tlsmax\":" << tlsMax << ",\"et\":" << et << ",\"batch\":" << batch << ",\"role\":\"" << (peerIsServer ? "client" : "server")
       << "\",\"threads\":" << threads << ",\"sessions\":" << sessions << ",\"bytes\":" << bytes << ",\"rbytes\":" << rbytes << ",\"permille\":" << permille
       << ",\"iocap\":" << iocap << ",\"dist\":" << dist << ",\"hssends\":" << hsSends << ",\"sndbuf\":" << sndbuf << ",\"rcvbuf\":" << rcvbuf
-      << ",\"peerrcvbuf\":" << peerRcvbuf << ",\"iochunk\":" << iochunk << ",\"pauses\":" << pauses << ",\"mwq\":" << mwq << ",\"window\":" << window << ",\"fin\":\"" << fin
+      << ",\"peerrcvbuf\":" << peerRcvbuf << ",\"iochunk\":" << iochunk << ",\"pauses\":" << pauses << ",\"mwq\":" << mwq << ",\"cbsend\":" << cbsend << ",\"window\":" << window << ",\"fin\":\"" << fin
       << "\",\"fault\":\"" << fault << "\",\"seed\":" << seed << ",\"cell\":" << cell << "}";
     return o.str();
   }
@@ -186,7 +192,7 @@ struct Harness
   void earlySends(Sess &s, vf::Rng &r, bool onIoThread)
   {
     std::vector<uint8_t> buf;
-    bool multi = C.threads > 1;
+    bool multi = C.threads > 1 || C.cbsend;
     for (uint32_t i = 0; i < C.hsSends; i++) doSend(s, 0, r, pickLen(r, C, multi), buf, onIoThread);
     s.senders[0].earlyCount = C.hsSends;
   }
@@ -196,7 +202,7 @@ struct Harness
     exemptThisThread(); // sender threads never do socket I/O themselves
     vf::Rng r(C.seed, 1000 + C.cell * 131 + s->idx * 17 + ti);
     std::vector<uint8_t> buf;
-    bool multi = C.threads > 1;
+    bool multi = C.threads > 1 || C.cbsend;
     uint64_t sent = 0;
     bool throttle = C.fault != "overflow";
     int afterClose = 0;
@@ -219,10 +225,13 @@ struct Harness
           bool parserDead = (parsed >> 40) != 0;
           if ((parserDead || outCount + 32 < C.mwq / 2) && outBytes < C.window) break;
           if (s->stopSenders.load() || abortAll.load() || s->closeCount.load() > 0 || s->peer.done.load()) break;
+          if (s->cbWaiting.load() != s->cbReleased.load()) break; // the callback sender waits for a worker send: one extra payload
           vf::sleepMs(0.2);
         }
       }
+      uint32_t w = s->cbWaiting.load();
       doSend(*s, ti, r, len, buf);
+      if (w != s->cbReleased.load() && w == s->cbWaiting.load()) s->cbReleased.store(w); // after the return stamp was taken
       sent += len;
       if (s->closeCount.load() > 0 && ++afterClose > 3) break; // a few sends after the close, then stop
       if (r.chance(0.02)) vf::sleepMs(0.05 * double(r.below(30)));
@@ -290,6 +299,36 @@ struct Harness
         if (m < d.size()) { s->rxBad = true; s->rxBadOff = off + m; s->rxWindow.assign(d.data() + m, d.data() + d.size()); }
       }
       else if (s->rxWindow.size() < 256) s->rxWindow.insert(s->rxWindow.end(), d.data(), d.data() + std::min<size_t>(d.size(), 256));
+      if (s->cbEnabled.load() && s->closeCount.load() == 0 && s->cbCount < 160 && s->cbBytes < s->cbByteBudget && s->cbRng.chance(0.6))
+      {
+        // Sends from inside the data callback, i.e. on the I/O thread, while other threads send on the same session.
+        // To get CERTAIN real-time precedence pairs the callback sometimes parks (<= 3 ms) until a worker reports
+        // that one of its sends - called after the callback parked - has returned; only then the callback sends.
+        uint32_t cbIdx = uint32_t(s->senders.size() - 1);
+        int rounds = 1 + int(s->cbRng.below(2));
+        for (int rd = 0; rd < rounds; rd++)
+        {
+          bool latched = false;
+          if (s->cbLatchLeft > 0 && s->sendersRunning.load() > 0 && s->cbRng.chance(0.7))
+          {
+            s->cbLatchLeft--;
+            uint32_t gen = ++s->cbGen;
+            s->cbWaiting.store(gen);
+            uint64_t t0 = vf::nowNs();
+            while (s->cbReleased.load() != gen && vf::nowNs() - t0 < 3000000ull) std::this_thread::yield();
+            latched = s->cbReleased.load() == gen;
+            if (!latched) { s->cbReleased.store(gen); s->cbLatchTimeouts++; } // give up: nobody may release this generation later
+          }
+          int nsend = 1 + int(s->cbRng.below(2));
+          for (int i = 0; i < nsend; i++)
+          {
+            uint32_t len = std::min<uint32_t>(pickLen(s->cbRng, C, true), s->cbRng.chance(0.03) ? 8000 : 1500);
+            doSend(*s, cbIdx, s->cbRng, len, s->cbBuf, true);
+            s->cbCount++; s->cbBytes += len;
+          }
+          if (latched) s->cbLatched++;
+        }
+      }
       s->rxBytes.store(off + d.size());
     });
     tr->onClose([this](SessionId sid, const TransportErrorInfo &why) {
@@ -504,8 +543,9 @@ int runStream(const Cell &C0)
     H.sess.emplace_back(new Sess());
     Sess &s = *H.sess.back();
     s.idx = uint32_t(i);
-    s.senders.resize(size_t(C.threads));
-    for (int t = 0; t < C.threads; t++) s.senders[size_t(t)].t = uint32_t(i * 32 + t);
+    s.senders.resize(size_t(C.threads) + (C.cbsend ? 1 : 0));
+    for (size_t t = 0; t < s.senders.size(); t++) s.senders[t].t = uint32_t(i * 32) + uint32_t(t);
+    s.cbRng = vf::Rng(C.seed, 4400 + C.cell * 7 + uint64_t(i)); s.cbByteBudget = perSess / 4 + 1; s.cbEnabled = C.cbsend;
     PeerParams &P = s.peer.P;
     P.tls = C.tls; P.tlsMax = C.tlsMax; P.peerIsServer = C.peerIsServer; P.rcvbuf = C.peerRcvbuf; P.seed = C.seed * 977 + C.cell; P.sess = s.idx;
     P.hsDelayMs = C.tls ? uint32_t(rng.range(5, 40)) : 0;
@@ -513,6 +553,7 @@ int runStream(const Cell &C0)
     P.tailBytes = (faultNone && C.fin == "half") ? rng.range(1, 9000) : 0;
     P.pauseBudget = C.pauses / C.sessions;
     P.reserve = size_t(perSess + perSess / 4 + 200000);
+    if (C.cbsend) { P.writePauseProb = 0.6; P.maxWriteChunk = 1500; } // many separate onData callbacks, spread over the forward transfer
     if (C.fault == "peer-rst" || C.fault == "peer-fin") { P.abortKind = C.fault == "peer-rst" ? 1 : 2; P.abortAfter = rng.range(1, perSess * 3 / 4 + 1); }
     if (C.fault == "overflow") s.peer.holdReads = true;
     s.peer.cert = H.pki.cert; s.peer.key = H.pki.key;
@@ -566,8 +607,8 @@ int runStream(const Cell &C0)
     if (!sendersDone()) return false;
     for (auto &s : H.sess)
     {
+      if (s->rxBytes.load() < s->peer.P.reverseBytes) return false;   // first: after this no further onData (no callback send) can happen
       if (s->peer.rxBytes.load() < s->acceptedBytes.load()) return false;
-      if (s->rxBytes.load() < s->peer.P.reverseBytes) return false;
     }
     return true;
   };
@@ -648,6 +689,7 @@ int runStream(const Cell &C0)
   static const bool trace = getenv("VF_C01_TRACE") != nullptr;
   auto T = [&](const char *w) { if (trace) fprintf(stderr, "[trace] %-28s %8.1f ms\n", w, double(vf::nowNs() - tStart) / 1e6); };
   T(outcome.c_str());
+  for (auto &s : H.sess) s->cbEnabled = false; // the final phase requires that the engine writes nothing
   // ---- final phase
   bool halfFinal = false;
   if (outcome == "complete")
@@ -735,14 +777,19 @@ int runStream(const Cell &C0)
   O.obs("shim_send_calls", sp.sendCalls.load()); O.obs("shim_recv_calls", sp.recvCalls.load());
   O.obs("tls_want_read", g_wantRead.load()); O.obs("tls_want_write", g_wantWrite.load());
   O.obs(C.tls ? "sends_accepted_before_tls_handshake" : "sends_accepted_before_connect_or_in_accept", early);
+  if (C.cbsend)
+  {
+    O.obs("callback_sender_cells"); O.obs("callback_sends_on_io_thread", sum([](Sess &s) { return uint64_t(s.cbCount); }));
+    O.obs("callback_sends_after_a_worker_send_returned", sum([](Sess &s) { return s.cbLatched; })); O.obs("callback_latch_timeouts", sum([](Sess &s) { return s.cbLatchTimeouts; }));
+  }
   O.obs("peer_read_pauses", sum([](Sess &s) { return s.peer.pausesTaken.load(); }));
   O.obsMax("peak_backlog_bytes", peakBacklog);
   if (outcome == "closed-early") O.obs("sessions_closed_early_prefix_checked", H.sess.size());
   auto stf = H.tr->getStats();
   O.obs("engine_backpressure_closes", stf.backpressureCloses);
   char sig[256];
-  snprintf(sig, sizeof sig, "stream tls=%d/%d role=%d et=%d batch=%d thr=%d sess=%d dist=%u fault=%s fin=%s sw=%d ea=%d sr=%d ww=%d out=%s", C.tls, C.tlsMax, C.peerIsServer, C.et,
-           C.batch, C.threads, C.sessions, C.dist, C.fault.c_str(), C.fin.c_str(), sp.shortenedSends.load() ? 1 : 0, sp.eagainSends.load() ? 1 : 0,
+  snprintf(sig, sizeof sig, "stream tls=%d/%d role=%d et=%d batch=%d thr=%d cb=%d sess=%d dist=%u fault=%s fin=%s sw=%d ea=%d sr=%d ww=%d out=%s", C.tls, C.tlsMax, C.peerIsServer, C.et,
+           C.batch, C.threads, C.cbsend, C.sessions, C.dist, C.fault.c_str(), C.fin.c_str(), sp.shortenedSends.load() ? 1 : 0, sp.eagainSends.load() ? 1 : 0,
            sp.shortenedRecvs.load() ? 1 : 0, g_wantWrite.load() ? 1 : 0, outcome.c_str());
   O.caseSig(vf::fnv(sig, strlen(sig)));
   std::ostringstream smp;
@@ -1006,6 +1053,7 @@ int main(int argc, char **argv)
   C.bytes = a.u("bytes", 200000); C.rbytes = a.u("rbytes", 50000);
   C.permille = uint32_t(a.u("permille", 300)); C.iocap = uint32_t(a.u("iocap", 0)); C.dist = uint32_t(a.u("dist", 0)); C.hsSends = uint32_t(a.u("hssends", 2));
   C.sndbuf = int(a.u("sndbuf", 4096)); C.rcvbuf = int(a.u("rcvbuf", 4096)); C.peerRcvbuf = int(a.u("peerrcvbuf", 8192)); C.iochunk = int(a.u("iochunk", 65536));
+  C.cbsend = a.u("cbsend", 0);
   C.pauses = int(a.u("pauses", 100)); C.mwq = size_t(a.u("mwq", 1024)); C.window = a.u("window", 1u << 20);
   C.fin = a.s("fin", "half"); C.fault = a.s("fault", "none");
   C.seed = a.u("seed", 1); C.cell = a.u("cell", 0); C.stallMs = a.u("stallms", 8000); C.watchdogMs = a.u("watchdogms", 240000);
